@@ -1,6 +1,6 @@
 (* C18 correspondence: cases written by harness/cmd/c18 are evaluated here by vm_compute. *)
 From PF Require Export Gen.Closed Gen.Sphere Gen.Hemisphere Gen.Cylinder Gen.Cube Check.Common.
-From Coq Require Import FMapPositive.
+From Coq Require Import FMapPositive Uint63.
 Open Scope N_scope.
 
 Inductive fam :=
@@ -28,7 +28,7 @@ Inductive case :=
 (* boxes with even integer extents: additionally the (exact, integer) positions *)
 | CCube (welded : bool) (hw hh hd : Z) (nverts : N) (idx rep : list N) (pos : list vec)
 (* large counts: two hashes of the implementation's index list and of its class list *)
-| CHash (f : fam) (nverts nidx : N) (hidx hrep : N * N)
+| CHash (f : fam) (nverts nidx : N) (hidx hrep : Z * Z)
 (* parameters outside the accepted range: did the constructor reject them (panic with an error)? *)
 | CReject (kind : N) (r c : Z) (rejected : bool)
 (* purely numerical observation (convergence of the volume), judged by the harness *)
@@ -37,6 +37,11 @@ Inductive case :=
 Definition listN_eqb := leqb N.eqb.
 
 (* canonical class list of a class map on 0..n-1: smallest index with the same class *)
+(* 0 … n-1 in time linear in n ([nseq] converts every element from nat) *)
+Fixpoint nseq_from (k : nat) (a : N) : list N :=
+  match k with O => [] | S k' => a :: nseq_from k' (a + 1) end.
+Definition nseq_fast (n : N) : list N := nseq_from (N.to_nat n) 0.
+
 Definition canon_reps (cls : N -> N) (n : N) : list N :=
   let step (acc : PositiveMap.t N * list N) (v : N) :=
     let '(m, out) := acc in
@@ -45,16 +50,19 @@ Definition canon_reps (cls : N -> N) (n : N) : list N :=
     | Some r => (m, r :: out)
     | None => (PositiveMap.add k v m, v :: out)
     end in
-  rev (snd (fold_left step (nseq n) (PositiveMap.empty N, []))).
+  rev (snd (fold_left step (nseq_fast n) (PositiveMap.empty N, []))).
 
 Definition table (l : list N) : PositiveMap.t N :=
   snd (fold_left (fun '(k, m) x => (N.succ k, PositiveMap.add (N.succ_pos k) x m)) l (0, PositiveMap.empty N)).
 Definition lookup (t : PositiveMap.t N) (k : N) : N :=
   match PositiveMap.find (N.succ_pos k) t with Some x => x | None => k end.
 
-Definition hash1 (p m : N) (l : list N) : N := fold_left (fun h x => (h * m + x + 1) mod p) l 0.
-Definition hash2 (l : list N) : N * N := (hash1 2147483647 1000003 l, hash1 2147483629 998244353 l).
-Definition pairN_eqb (a b : N * N) : bool := (fst a =? fst b) && (snd a =? snd b).
+(* two polynomial fingerprints modulo 2^63 (kernel machine integers: N division made hashing the bottleneck) *)
+Definition int_of_N (n : N) : int := match n with N0 => 0%uint63 | Npos p => of_pos p end.
+Definition hash1 (m : int) (l : list N) : Z :=
+  to_Z (fold_left (fun h x => (h * m + int_of_N x + 1)%uint63) l 0%uint63).
+Definition hash2 (l : list N) : Z * Z := (hash1 1000003%uint63 l, hash1 998244353%uint63 l).
+Definition pairN_eqb (a b : Z * Z) : bool := (fst a =? fst b)%Z && (snd a =? snd b)%Z.
 
 Definition rejects (kind : N) (r c : Z) : bool :=
   match kind with
